@@ -293,3 +293,33 @@ Proof.
     destruct (parse_keys ks) as [l'|] eqn:E'; [|discriminate].
     inversion H; subst l. constructor; [exact E | now apply IH].
 Qed.
+
+(* ---- the stored key of an RBAC identifier carries no ':' ------------------------
+   (the reason for the transcoding: ':' is not allowed in a ConfigMap key) *)
+Lemma replace_all_ch_removes : forall c new s, contains (ch c) new = false ->
+  contains (ch c) (replace_all (ch c) new s) = false.
+Proof.
+  intros c new s Hn. induction s as [|x s IH]; [now rewrite replace_all_nil|].
+  rewrite replace_all_ch_cons, contains_ch_app, IH, orb_false_r.
+  destruct (Ascii.eqb c x) eqn:E; [exact Hn|].
+  unfold ch at 2. rewrite contains_ch_cons, E. reflexivity.
+Qed.
+
+Lemma is_rbac_no_colon : forall g k, is_rbac g k = true ->
+  contains ":" g = false /\ contains ":" k = false.
+Proof.
+  intros g k H. unfold is_rbac in H. apply andb_true_iff in H. destruct H as [Hg Hk].
+  apply String.eqb_eq in Hg. subst g. split; [reflexivity|].
+  rewrite !orb_true_iff, !String.eqb_eq in Hk.
+  destruct Hk as [[[Hk|Hk]|Hk]|Hk]; subst k; reflexivity.
+Qed.
+
+Lemma rbac_key_no_colon : forall i, is_rbac (o_grp i) (o_knd i) = true ->
+  contains ":" (o_ns i) = false -> contains ":" (string_of_id i) = false.
+Proof.
+  intros i R Hns. destruct (is_rbac_no_colon _ _ R) as [Hg Hk].
+  unfold string_of_id, stored_name, field_separator, colon_transcoded. rewrite R.
+  change ":" with (ch ":"%char) in *.
+  rewrite !contains_ch_app, Hns, Hg, Hk.
+  rewrite (replace_all_ch_removes ":"%char "__" (o_name i) eq_refl). reflexivity.
+Qed.
